@@ -246,7 +246,7 @@ impl Property for C10 {
         let cfg = PartCfg {
             name: "reads",
             rule: "a generated history plus 2-13 generated read requests (eth_call, eth_callMany with 1-4 chained calls and optional overrides, eth_estimateGas(Many), brc20_balance, and the whole query surface also mid-block) inserted at generated positions; observation before == after each read; all indexer responses, the final observation and (after commit and close) the raw contents of all RocksDB stores equal those of the read-free twin. Non-trivial = a successful simulation of code containing SSTORE/LOG/CREATE/SELFDESTRUCT",
-            cases: ctx.tier.pick(400, 8000),
+            cases: ctx.tier.pick(900, 10_000),
             max_shrink_iters: ctx.tier.pick(250, 1000),
         };
         explore(ctx, ev, &cfg, strategy, check)
